@@ -983,7 +983,14 @@ fn issuer_case(r: &mut Rng) -> (String, IssueArgs, bool) {
     let now = now();
     let cfg = TreeCfg { max_depth: 3, max_fanout: 3, path_safe_names: false, plain: false };
     let mut risky = false;
-    let (class, claims): (&str, Value) = match if r.chance(1, 45) { 12 } else { r.below(12) } {
+    let mut fixed_paths: Option<Vec<String>> = None;
+    let (class, claims): (&str, Value) = match if r.chance(1, 45) { 12 } else if r.chance(1, 12) { 13 } else { r.below(12) } {
+        13 => ("fixed claim sets with names that look like syntax or like reserved names", {
+            let sets = notable_claims(now);
+            let (c, paths) = sets[r.below(sets.len())].clone();
+            fixed_paths = Some(paths);
+            c
+        }),
         12 => ("objects and arrays of 24 to 300 members", {
             // sizes at which a per-object computation (a cap, a budget, a buffer) could give out
             let n = *r.pick(&[24usize, 59, 60, 61, 62, 63, 64, 65, 100, 128, 130]);
@@ -1046,7 +1053,8 @@ fn issuer_case(r: &mut Rng) -> (String, IssueArgs, bool) {
         }),
         _ => ("random claim tree", gen_claims(r, &cfg, now)),
     };
-    let strategy = match r.below(8) {
+    let strategy = match if fixed_paths.is_some() && r.chance(1, 3) { 99 } else { r.below(8) } {
+        99 => Strategy::Custom(fixed_paths.clone().unwrap_or_default()),
         0 => Strategy::None,
         1 => Strategy::Top,
         2 | 3 => Strategy::All,
